@@ -5,6 +5,15 @@ A package whose whitelisted function left the translator's fragment gets NO modu
 tie modules that import it stop building and the check reports the broken tie.
 usage: extract_facts.py <repo> <out Facts.lean>"""
 import os, subprocess, sys
+
+
+def put(path, text):
+    # atomic: a check of another property running at the same time never sees a half-written module
+    tmp = f'{path}.{os.getpid()}.tmp'
+    open(tmp, 'w').write(text)
+    os.replace(tmp, path)
+
+
 repo, out = sys.argv[1], sys.argv[2]
 here = os.path.dirname(os.path.abspath(__file__))
 env = dict(os.environ, GOFLAGS='-mod=mod', GOPROXY='off', GOSUMDB='off', GOTOOLCHAIN='local', GO111MODULE='off')
@@ -15,7 +24,7 @@ if r.returncode != 0 or 'namespace WebPkg.Facts' not in r.stdout:
 os.makedirs(os.path.dirname(out), exist_ok=True)
 old = open(out).read() if os.path.exists(out) else None
 if old != r.stdout:            # keep the mtime when nothing changed: no rebuild
-    open(out, 'w').write(r.stdout)
+    put(out, r.stdout)
 
 # function-level translation, one module per Go package
 errs = []
@@ -29,7 +38,7 @@ for tag in ('sh', 'cbor', 'mice', 'sxgver', 'bundlever'):
         continue
     old = open(dst).read() if os.path.exists(dst) else None
     if old != r.stdout:
-        open(dst, 'w').write(r.stdout)
+        put(dst, r.stdout)
 # shared-state touch points of the library packages (tie for C18)
 dst = os.path.join(os.path.dirname(out), 'Purity.lean')
 r = subprocess.run(['go', 'run', 'main.go', repo], cwd=os.path.join(here, 'purity'), env=env, capture_output=True, text=True)
@@ -40,7 +49,7 @@ if r.returncode != 0 or 'namespace WebPkg.Purity' not in r.stdout:
 else:
     old = open(dst).read() if os.path.exists(dst) else None
     if old != r.stdout:
-        open(dst, 'w').write(r.stdout)
+        put(dst, r.stdout)
 if errs:
     sys.stdout.write(' | '.join(errs))
     sys.exit(1)
